@@ -182,6 +182,17 @@ def enum_units(tier, seed):
         {"t": "good", "records": [[0x20000, {"pat": [3, 65535]}], [0x20000 + 65535, {"pat": [9, 65535]}]], "delta": -0x200, "form": "zero-minus", "place": "between"},
         {"t": "good", "records": [[0xFFFF00, {"hex": "00" * 0x100}]], "delta": 0, "form": "lit", "place": "scope"},
     ]
+    # record offsets whose three bytes spell the end marker in another letter case (eof, Eof, eOF ...) are ordinary offsets
+    for i in range(1, 8):
+        off = 0x454F46 | (0x200000 if i & 4 else 0) | (0x2000 if i & 2 else 0) | (0x20 if i & 1 else 0)
+        cases.append({"t": "good", "records": [[0x20010, {"hex": "a1a2"}], [off, {"hex": "b1b2b3"}], [0x20020, {"rle": [0x7E, 4]}]], "delta": 0, "form": "lit", "place": ["top", "between", "block"][i % 3]})
+        cases.append({"t": "good", "records": [[off, {"rle": [i, 3]}], [off + 3, {"hex": "c1"}]], "delta": -0x10, "form": "neg", "place": "between"})
+    # a record that lands exactly on the end-marker offset (by the delta, or by the copier header): the writer is handed the block; a
+    # patch file cannot hold it, so writing the patch is refused -- the record is never left out of a patch that is reported as written
+    cases += [{"t": "eofland", "off": 0x455146, "delta": -0x200, "copier": False}, {"t": "eofland", "off": 0x454D46, "delta": 0, "copier": True},
+              {"t": "eofland", "off": 0x454F45, "delta": 1, "copier": False}, {"t": "eofland", "off": 0x454F46 - 0x200 + 0x10, "delta": -0x10, "copier": True}]
+    cases += [
+    ]
     # file lengths around the I/O buffer sizes: the EOF marker (and record headers) straddling a 4096 / 8192-byte boundary
     for base in (4096, 8192, 16384, 65536):
         for total in range(base - 6, base + 9):
@@ -302,6 +313,27 @@ def run_case(case) -> Outcome:
         return out
     if case["t"] == "headered":
         return _run_headered(case)
+    if case["t"] == "eofland":
+        blob = ips.build([(0x20010, b"\xa1\xa2"), (case["off"], b"\xb1\xb2\xb3"), (0x20020, b"\xc1")])
+        dt = _delta_text(case["delta"], "lit" if case["delta"] >= 0 else "neg")
+        src = _program("between", dt)
+        files = {"p.ips": {"hex": blob.hex()}}
+        out = Outcome(evals=2, nontrivial=True, labels=["lands-on-eof-marker"])
+        out.sample = {"record_offset": hex(case["off"]), "directive": f".include_ips 'p.ips', {dt}", "copier_header": case["copier"]}
+        res = driver.assemble_mem(src, files=files)
+        land = case["off"] + case["delta"]
+        if not res.accepted or (land, b"\xb1\xb2\xb3") not in [(a, bytes(d)) for a, d in res["blocks"]]:
+            out.bad("eofland:writer-calls", case, f"the record at {case['off']:#x}{case['delta']:+#x} was not handed to the writer at {land:#x}: {res['status']} {res['exc']} {driver.blocks_json(res['blocks'], 8)}")
+        f = driver.assemble_file_api(src, fmt="ips", copier=case["copier"], files=files)
+        if f["status"] == "ok" and f["rc"] in (0, None):
+            try:
+                parsed = ips.parse(f["output"] or b"")
+            except ips.IpsError as e:
+                parsed = None
+                out.bad("eofland:patch-unparseable", case, f"a patch was reported as written but does not parse: {e}")
+            if parsed is not None and not any(bytes(d) == b"\xb1\xb2\xb3" for _, d, _ in parsed):
+                out.bad("eofland:record-dropped", case, f"the patch was reported as written (rc {f['rc']}) but the record that lands on file offset 0x454F46 is not in it: records {[(hex(o), len(d)) for o, d, _ in parsed]}")
+        return out
     records, delta = case["records"], case["delta"]
     recs = []
     for off, spec in records:
